@@ -15,6 +15,7 @@ using hx::Pair;
 
 namespace lk {
 std::function<void()>* g_hold[8];
+WInfo g_winfo[4];
 void* g_other = nullptr;
 }
 
@@ -63,6 +64,7 @@ void lr_body(int writers, int mods, int readers, int reads, bool unwinding = fal
     hx::win_reset();
     size_t base_blocks = live_blocks();
     LR* lr = new LR(0);
+    const void* lr_mutex = hx::probe_lock([&] { lr->modify([](Pair&) {}); });  // the writer mutex, found through the API
     {
         std::vector<int> ids;
         for (int w = 0; w < writers; w++)
@@ -119,7 +121,7 @@ void lr_body(int writers, int mods, int readers, int reads, bool unwinding = fal
     lr->modify([](Pair&) {});  // must not block: the writer mutex was released on unwinding
     int fin2 = hx::read_pair(*lr->lock_shared(), "final read of the other copy");
     MC_CHECK(fin2 == fin, "copies-differ", "the two internal copies disagree after an exception (%d vs %d)", fin, fin2);
-    MC_CHECK(!is_locked(&lr->m_writeMutex), "leaked-lock", "writer mutex left locked");
+    MC_CHECK(!is_locked(lr_mutex), "leaked-lock", "writer mutex left locked");
     delete lr;
     MC_CHECK(live_blocks() == base_blocks, "leak", "%zu arena blocks not freed", live_blocks() - base_blocks);
 }
@@ -137,6 +139,7 @@ void lock_body(int inst, std::vector<std::vector<OpI>> threads)
     hx::win_reset();
     for (auto& h : lk::g_hold) h = nullptr;
     size_t base_blocks = live_blocks();
+    for (auto& e : lk::g_winfo) e = lk::WInfo{};  // executions can be abandoned before destroy()
     void* w = in.create();
     {
         std::vector<int> ids;
@@ -166,10 +169,28 @@ void lock_body(int inst, std::vector<std::vector<OpI>> threads)
     }
     MC_CHECK(!is_locked(in.mutex_addr(w)), "leaked-lock", "the wrapper's mutex is still locked after an exception");
     const Pair* obj = in.obj_addr(w);
-    MC_CHECK(obj->a == obj->b, "half-modified", "wrapped object left half-modified (a=%d b=%d)", obj->a, obj->b);
-    // record the final value as a read by main, then require a sequential explanation
-    int hi = h_begin(LOAD);
-    h_end(hi, HK_READ, 0, obj->a);
+    if (obj) {
+        MC_CHECK(obj->a == obj->b, "half-modified", "wrapped object left half-modified (a=%d b=%d)", obj->a, obj->b);
+        // record the final value as a read by main, then require a sequential explanation
+        int hi = h_begin(LOAD);
+        h_end(hi, HK_READ, 0, obj->a);
+    } else {
+        // no handle interface (atomic_guarded): read through load(); its copy may be the injected fault: retry
+        for (int attempt = 0; attempt < 3; attempt++) {
+            int before = g_nhist;
+            try {
+                in.ops[LOAD](w, 0);
+                break;
+            }
+            catch (const Injected&) {
+                for (int i = before; i < g_nhist; i++)
+                    if (g_hist[i].ret == INF) {
+                        g_hist[i].kind = HK_NONE;
+                        g_hist[i].ret = stamp();
+                    }
+            }
+        }
+    }
     const char* m = linearizable(0, -1);
     MC_CHECK(m == nullptr, "not-linearizable", "%s", m);
     in.destroy(w);
@@ -183,11 +204,14 @@ void cow_body(int writers, bool reader, bool user_throws = false)
     hx::win_reset();
     size_t base_blocks = live_blocks();
     COW* cow = new COW(0);
+    hx::g_no_faults = true;
+    const void* cow_mutex = hx::probe_lock([&] { cow->lock().cancel(); });  // the writer mutex, found through the API
+    hx::g_no_faults = false;
     int commits = 0;
     {
         std::vector<int> ids;
         for (int w = 0; w < writers; w++)
-            ids.push_back(spawn([cow, &commits, user_throws] {
+            ids.push_back(spawn([cow, &commits, user_throws, cow_mutex] {
                 try {
                     auto h = cow->lock();  // copies the committed value: the copy constructor may throw
                     hx::bump_pair(*h, "writer modifies private copy");
@@ -196,10 +220,10 @@ void cow_body(int writers, bool reader, bool user_throws = false)
                     // released (committed) here
                 }
                 catch (const Unwinding&) {
-                    MC_CHECK(holds(&cow->m_writeMutex) == 0, "lock-kept", "write handle dropped by unwinding but the writer mutex is still held");
+                    MC_CHECK(holds(cow_mutex) == 0, "lock-kept", "write handle dropped by unwinding but the writer mutex is still held");
                 }
                 catch (const Injected&) {
-                    MC_CHECK(holds(&cow->m_writeMutex) == 0, "lock-kept", "lock() threw but the writer mutex is still held by this thread");
+                    MC_CHECK(holds(cow_mutex) == 0, "lock-kept", "lock() threw but the writer mutex is still held by this thread");
                     observe(77);
                 }
             }));
@@ -245,6 +269,7 @@ void dg_body(int variant)
     hx::win_reset();
     size_t base_blocks = live_blocks();
     DG* dg = new DG(0);
+    const void* dg_mutex = hx::probe_lock([&] { (void)dg->lock_shared(); });  // found through the API
     DShared* sh = new DShared();
     int ok_count = 0;  // functors that completed
     int accepted = 0;
@@ -264,7 +289,7 @@ void dg_body(int variant)
     {
         std::vector<int> ids;
         auto submitter = [&](std::vector<int> kinds, int base) {
-            ids.push_back(spawn([dg, sh, kinds, base, fun, &accepted] {
+            ids.push_back(spawn([dg, sh, kinds, base, fun, &accepted, dg_mutex] {
                 int id = base;
                 for (int k : kinds) {
                     ++id;
@@ -277,7 +302,7 @@ void dg_body(int variant)
                         catch (const Injected&) {
                             // only the direct path propagates: then the functor has run in this call
                             MC_CHECK(g_nexec > before, "phantom-exception", "modify_detach threw although its functor did not run in the call");
-                            MC_CHECK(holds(&dg->m_mutex) == 0, "lock-kept", "modify_detach threw but the lock is still held");
+                            MC_CHECK(holds(dg_mutex) == 0, "lock-kept", "modify_detach threw but the lock is still held");
                             observe(77);
                         }
                     } else {
@@ -316,7 +341,7 @@ void dg_body(int variant)
         int v = hx::read_pair(*h, "final read");
         MC_CHECK(v == ok_count, "half-modified", "final value %d but %d functors completed", v, ok_count);
     }
-    MC_CHECK(!is_locked(&dg->m_mutex), "leaked-lock", "deferred_guarded mutex left locked");
+    MC_CHECK(!is_locked(dg_mutex), "leaked-lock", "deferred_guarded mutex left locked");
     for (int id = 0; id < 8; id++) {
         if (!sh->has[id]) continue;
         MC_CHECK(sh->fut[id].wait_for(std::chrono::seconds(0)) == std::future_status::ready, "future-not-ready", "future #%d not ready", id);
@@ -351,6 +376,7 @@ void dd_body(int variant)
     memset(g_dd_dtor, 0, sizeof g_dd_dtor);
     size_t base_blocks = live_blocks();
     DD* dd = new DD([](std::shared_ptr<DObj>&) { may_throw(hx::SITE_CALLBACK); });
+    const void* dd_mutex = hx::probe_lock([&] { (void)dd->size(); });  // the container's lock, found through the API
     {
         std::vector<int> ids;
         ids.push_back(spawn([dd] {
@@ -367,7 +393,7 @@ void dd_body(int variant)
             }));
         for (int id : ids) join(id);
     }
-    MC_CHECK(!is_locked(&dd->destructionLock), "leaked-lock", "destruction lock left locked after a throwing callback");
+    MC_CHECK(!is_locked(dd_mutex), "leaked-lock", "destruction lock left locked after a throwing callback");
     // still usable
     dd->addObjectsToBeDestroyed(std::make_shared<DObj>(4));
     (void)dd->destroyObjects();
@@ -387,12 +413,13 @@ void soh_body(int variant)
 {
     size_t base_blocks = live_blocks();
     SOH* h = new SOH();
+    const void* soh_mutex = hx::probe_lock([&] { (void)h->empty(); });  // the map lock, found through the API
     h->addObject("a", std::make_shared<SObj>(1), 1);
     h->addObject("b", std::make_shared<SObj>(2), 2);
     int removed = 0;
     {
         std::vector<int> ids;
-        ids.push_back(spawn([h, &removed] {
+        ids.push_back(spawn([h, &removed, soh_mutex] {
             try {
                 bool r = h->removeObject([](const std::shared_ptr<SObj>& p) {
                     may_throw(hx::SITE_PRED);
@@ -401,11 +428,11 @@ void soh_body(int variant)
                 if (r) removed = 1;
             }
             catch (const Injected&) {
-                MC_CHECK(holds(&h->mapLock) == 0, "lock-kept", "removeObject(pred) threw but mapLock is still held");
+                MC_CHECK(holds(soh_mutex) == 0, "lock-kept", "removeObject(pred) threw but mapLock is still held");
                 observe(77);
             }
         }));
-        ids.push_back(spawn([h, variant] {
+        ids.push_back(spawn([h, variant, soh_mutex] {
             try {
                 std::shared_ptr<SObj> r;
                 auto pred = [](const std::shared_ptr<SObj>& p) {
@@ -417,13 +444,13 @@ void soh_body(int variant)
                 MC_CHECK(r && r->id == 1, "find-result", "findObject(pred) did not return object 1");
             }
             catch (const Injected&) {
-                MC_CHECK(holds(&h->mapLock) == 0, "lock-kept", "findObject(pred) threw but mapLock is still held");
+                MC_CHECK(holds(soh_mutex) == 0, "lock-kept", "findObject(pred) threw but mapLock is still held");
                 observe(78);
             }
         }));
         for (int id : ids) join(id);
     }
-    MC_CHECK(!is_locked(&h->mapLock), "leaked-lock", "mapLock left locked after a throwing predicate");
+    MC_CHECK(!is_locked(soh_mutex), "leaked-lock", "mapLock left locked after a throwing predicate");
     // map unchanged by a failed call: "a" is always there, "b" iff it was not removed, with its tag
     {
     auto a = h->findObject(std::string("a"));
